@@ -196,6 +196,12 @@ class NumpyModel:
         if o in ('+', '-'):
             if ml is None or mr is None:
                 return None
+            # a bare literal carries whatever unit its partner has (0.5 * d - 0.005)
+            if not mr.atoms and ml.atoms and has_const(r):
+                return Mono(ml.coef, ml.atoms, ml.deg, ml.unit, ml.opaque) if mr.coef == 0 else Mono(ml.coef, {**ml.atoms, f'offset{o}{abs(mr.coef):g}': 1}, ml.deg, ml.unit, ml.opaque)
+            if not ml.atoms and mr.atoms and has_const(l):
+                c = mr.coef if o == '+' else (-mr.coef if mr.coef is not None else None)
+                return Mono(c, mr.atoms, mr.deg, mr.unit, mr.opaque) if ml.coef == 0 else Mono(c, {**mr.atoms, f'offset+{abs(ml.coef):g}': 1}, mr.deg, mr.unit, mr.opaque)
             if ml.deg != mr.deg and not (ml.coef == 0 or mr.coef == 0):
                 interp.emit('degree_mismatch', node, left=ml, right=mr, op=o)
                 return None
@@ -315,6 +321,14 @@ class NumpyModel:
                 return None
             if g[0] in ('CART', 'DIST', 'DIST2', 'CARTSQ', 'ENERGY'):
                 return g
+            if g[0] == 'FOLD' and o == '*':
+                # np.mod(x, 1 / s) * s : supercell folding back onto the closed unit interval
+                otext = norm_text(node.right if other is r else node.left) if isinstance(node, ast.BinOp) else None
+                if otext is not None and g[2] in (f'1 / {otext}', f'1.0 / {otext}'):
+                    interp.emit('fold', node, ok=True, divisor=g[2], factor=otext)
+                    return ('FRAC', 'C')
+                interp.emit('fold', node, ok=False, divisor=g[2], factor=otext)
+                return None
             if g[0] == 'FDIFF':
                 return ('FDIFF', 'ANY')
             if g[0] == 'FRAC':
@@ -349,7 +363,12 @@ class NumpyModel:
                 return ('FRAC', 'C')
             return None
         if gl[0] in ('FRAC',):
-            return ('FOLD', gl)
+            rt = None
+            if isinstance(node, ast.BinOp):
+                rt = norm_text(node.right)
+            elif isinstance(node, ast.Call) and len(node.args) > 1:
+                rt = norm_text(node.args[1])
+            return ('FOLD', gl, rt)
         return None
 
     def geo_dot(self, interp, a, b, node):
